@@ -179,6 +179,13 @@ fn parse_ops(s: &str) -> Vec<Op> {
 }
 
 pub fn run_seq(cfg: Cfg, ops: &[Op]) -> Option<(String, String)> {
+    set_case_with(|s| {
+        use std::fmt::Write;
+        let _ = write!(s, "C11 the writer operation terminates\x1fwriter {:?} operations {}\x1f{}", cfg, op_str(ops), op_str(ops));
+        for a in cfg_args(&cfg) {
+            let _ = write!(s, "\x1e{}", a);
+        }
+    });
     let log = Rc::new(RefCell::new(SinkLog::default()));
     let sink = Sink { log: log.clone(), max: cfg.max, fail_at: cfg.fail_at, heal: cfg.heal, interrupt: cfg.interrupt };
     let mut written: Vec<u8> = vec![];
@@ -305,8 +312,8 @@ pub fn suite(_prop: &str, tier: &str, seed: u64) -> Report {
     let ops_all = all_ops();
     let n = if tier == "thorough" { 3 } else { 2 };
     let cfgs = configs();
+    start_watchdog(30);
     for cfg in &cfgs {
-        set_current(&format!("writer cfg {:?}", cfg));
         let mut idx: Vec<usize> = vec![];
         loop {
             let ops: Vec<Op> = idx.iter().map(|&i| ops_all[i]).collect();
